@@ -1,7 +1,7 @@
 #!/usr/bin/env python3
-"""Run the quick checks against every seeded change: apply patch to /repo, run, undo.  Writes seeded/INDEX.md.
+"""Run the quick checks against every seeded change: apply the patch to a scratch copy of /repo/src, run the checks on it (OPTYX_REPO), remove it.  Writes seeded/INDEX.md.
 
-/repo must be clean; the patch is always undone (git checkout -- .) even on error.
+/repo itself is never touched.
 usage: run_seeded.py [seed-id ...]
 """
 
@@ -15,51 +15,27 @@ SEEDED = os.path.join(HERE, "seeded")
 PROPS = ["C%02d" % i for i in range(1, 21)]
 
 
-def git(*a):
-    return subprocess.run(["git", "-C", "/repo", *a], capture_output=True, text=True)
-
-
-def run_checks():
-    """-> {prop: (exit code, [violation lines])}"""
-    out = {}
-    procs = {p: subprocess.Popen([os.path.join(HERE, "check"), p, "--tier", "quick"], stdout=subprocess.PIPE, stderr=subprocess.STDOUT, text=True, cwd=HERE,
-                                 env=dict(os.environ, OPTYX_NO_EVIDENCE="1")) for p in PROPS}
-    for p, pr in procs.items():
-        text = pr.communicate()[0]
-        lines = [l.strip() for l in text.splitlines() if l.startswith("  ") and ": R" in l]
-        if pr.returncode == 2:
-            lines = [l for l in text.splitlines() if "ANALYSIS-ERROR" in l][:1]
-        out[p] = (pr.returncode, lines)
-    return out
+sys.path.insert(0, os.path.dirname(os.path.abspath(__file__)))
+from _scratch import run_many
 
 
 def main():
-    if git("status", "--porcelain").stdout.strip():
-        print("/repo is not clean; refusing")
-        return 2
     ids = sys.argv[1:] or sorted(d for d in os.listdir(SEEDED) if os.path.isdir(os.path.join(SEEDED, d)))
+    results = run_many([(sid, os.path.join(SEEDED, sid, "patch.diff")) for sid in ids])
     rows = []
     for sid in ids:
         d = os.path.join(SEEDED, sid)
         meta = json.load(open(os.path.join(d, "meta.json")))
-        try:
-            r = git("apply", os.path.join(d, "patch.diff"))
-            if r.returncode:
-                rows.append((sid, meta["property"], "patch no longer applies", {}))
-                continue
-            res = run_checks()
-        finally:
-            git("checkout", "--", ".")
+        res = results[sid]
+        if res is None:
+            rows.append((sid, meta["property"], "patch no longer applies", {}))
+            print(sid, "patch no longer applies")
+            continue
         hits = {p: v for p, v in res.items() if v[0] != 0}
         rows.append((sid, meta["property"], "", hits))
         meta["detected_by"] = {p: {"exit": v[0], "reports": v[1][:3]} for p, v in hits.items()}
         json.dump(meta, open(os.path.join(d, "meta.json"), "w"), indent=1)
-        own = hits.get(meta["property"])
         print(sid, meta["property"], "->", {p: v[0] for p, v in hits.items()} or "NOT DETECTED")
-    # leave evidence of the unchanged tree behind
-    if not git("status", "--porcelain").stdout.strip():
-        for p in PROPS:
-            subprocess.run([os.path.join(HERE, "check"), p], stdout=subprocess.DEVNULL, cwd=HERE)
     if sys.argv[1:]:
         return 0  # partial run: keep the full index
     with open(os.path.join(SEEDED, "INDEX.md"), "w") as fh:
